@@ -55,9 +55,9 @@ class Cnl2jsonConverter(Converter):
         for delayed_operation in self._delayed_operations:
             self._convert_delayed_operation(delayed_operation)
         for key, value in self._json_assignment.items():
-            self._json_assignment.update({key: list(value)})
+            self._json_assignment.update({key: sorted(value)})
         for key, value in self._json_constant.items():
-            self._json_constant.update({key: list(value)})
+            self._json_constant.update({key: sorted(value)})
         self._json["assignments"].append(dict(self._json_assignment))
         self._json["constants"].append(dict(self._json_constant))
 
